@@ -24,6 +24,11 @@ LiveTys(v)  == [n \in 1..Len(LiveIdx(v)) |-> v.tys[LiveIdx(v)[n]]]
 TargetTypes(vs) == {LiveTys(vs[i]) : i \in Live(vs)}
 DocTryInto(vs, a, T) == IF ~vs[a].ign /\ LiveTys(vs[a]) = T THEN <<"ok", LiveIdx(vs[a])>> ELSE <<"fail">>
 
+\* The reference forms: `#[unwrap(owned, ref, ref_mut)]` (likewise try_unwrap, try_into) lists which of the owned /
+\* shared / mutable accessor forms are generated; without the attribute only the owned form is.
+FormSets == (SUBSET {"owned", "ref", "ref_mut"}) \ {{}}
+DocForms(fa) == IF fa = {} THEN {"owned"} ELSE fa          \* {} stands for "no attribute"
+
 \* laws of the contract
 Partition(vs) == \A a \in 1..Len(vs) : ~vs[a].ign =>
                     Cardinality({x \in Live(vs) : DocIs(vs, a, x)}) = 1
